@@ -400,7 +400,7 @@ class C06(Prop):
         self.stats = {"modes": {}, "nkeys": [], "nalias": [], "nfiles": [], "ops": 0}
         for c in range(n):
             r = rng.random()
-            nfiles = rng.choice([1, 1, 2, 3, 15, 16, 17, 40, rng.randint(1, 40)])
+            nfiles = rng.choice([1, 1, 2, 3, 15, 16, 17, 31, 32, 33, 40, rng.randint(1, 40)])
             if rng.random() < 0.01:
                 nfiles = rng.choice([255, 256, 257, 300])     # beyond the property's 40 files: exercises both bytes of the 16-bit fields
             if r < 0.08:
@@ -411,9 +411,13 @@ class C06(Prop):
                 nkeys = rng.randint(40, 300 if quick else 1000)
             else:
                 nkeys = rng.randint(600, 2000) if quick else rng.randint(2000, 5000)
+            if rng.random() < 0.06:
+                nkeys = rng.choice([127, 128, 129, 255, 256, 257, 383, 384, 385])      # reallocation chunk boundaries (eslSSI_KCHUNK = 128)
             nalias = 0 if rng.random() < 0.25 else rng.randint(0, max(1, nkeys if rng.random() < 0.7 else nkeys // 4))
             if not quick and r >= 0.985 and rng.random() < 0.5:
                 nalias = rng.randint(1000, 5000)
+            if rng.random() < 0.04 and nkeys > 0:
+                nalias = rng.choice([127, 128, 129, 256, 257])
             m = rng.random()
             mode = "both" if m < 0.45 else "ext" if m < 0.6 else "int" if m < 0.8 else "dupP" if m < 0.9 else "dupA"
             if nkeys == 0 and mode in ("dupP", "dupA"):
@@ -437,6 +441,11 @@ class C06(Prop):
         if line.startswith("fault"):
             return "fault"
         return line
+
+    def compare(self, ctx, case, impl_out, model_out):
+        if case.get("known_key") == KNOWN_CROSS:
+            return None     # the witness of the known finding is judged by the monitor alone (the model mirrors the unrepaired code)
+        return Prop.compare(self, ctx, case, impl_out, model_out)
 
     def monitor(self, ctx, case, out):
         """The property, stated on what the library returned (independent of the Lean model)."""
@@ -492,7 +501,8 @@ class C06(Prop):
                 if not files:
                     cur = None          # an index without files is outside the property (1..40 files)
                     continue
-                if dup:
+                if dup or (cross and st == "edup"):
+                    # (a cross-class duplicate reported as eslEDUP is what the property asks for: accepted, should the known finding get repaired)
                     if st != "edup": return fail("Write of an index with duplicate keys returned %s (expected edup)" % st)
                     if f.get("file") != "0": return fail("Write failed with edup but left an index file behind")
                     cur = None
